@@ -269,7 +269,7 @@ CLAIMED = {
         "that os.path.expanduser leaves text not starting with `~` alone (assumed). Trusted: pyvc engine + str.split / str.join / map as uninterpreted functions + z3.",
    design="§3 C04"),
  "C18": dict(
-   category="bounded",
+   category="exploration",
    text="Deductive part (small): in _quote_paths, for every candidate name and every prefix / quote state, the raw prefix is chosen only for names without control characters, and a "
         "name with `$` or backslash and no control character is written raw (asserts on the real decision statements, rest of the loop body abstracted). The property itself - "
         "decode(quote(name)) == name - needs xonsh's lexer as a specification function and is NOT proved: bounded stand-ins on the real code: 36 file names (spaces, both quotes, $, "
